@@ -59,6 +59,22 @@ def _cases(res):
     return out, bad
 
 
+TWIN_FIELDS = ("avk", "nextAvk", "params", "nextParams", "sigBy")
+
+
+def _twin_kinds(certs):
+    """which twins of composite values (a key / parameter set that agrees with an honest one on a
+    part and differs on another: names with a '/') the certificates carry, as sorted 'field/kind'"""
+    out = set()
+    for x in certs:
+        for f in TWIN_FIELDS:
+            v = str(x.get(f, ""))
+            if "/" in v:
+                # abstract names: H3/s, p/k ...; projected names: H3/s42, H3/n3/s42
+                out.add(f + "/" + v.split("/", 1)[1][:1])
+    return sorted(out)
+
+
 def _stratified(items, key, n, rnd):
     """At most n items, taken round-robin over the strata given by `key` (every stratum is
     represented before any stratum gets a second item), seeded."""
@@ -85,7 +101,7 @@ def _session_key(x):
     first = [i for i in a["serve"][:1] if i]
     same_epoch = bool(first) and certs[first[0] - 1]["epoch"] == certs[a["start"] - 1]["epoch"]
     first_forged = bool(first) and not certs[first[0] - 1]["hashOk"]
-    return json.dumps([x["cls"], bool(x["warm"]), same_epoch, first_forged, len(a["serve"])])
+    return json.dumps([x["cls"], bool(x["warm"]), same_epoch, first_forged, len(a["serve"]), _twin_kinds(certs)])
 
 
 def _witness(c, module, cfg_name, known, finding, inv, **kw):
@@ -129,7 +145,8 @@ def run(tier, seed):
         "(Certificate::try_compute_hash / ProtocolMessage::compute_hash themselves are C04's subject)",
         "a multi-signature / genesis signature is valid iff the named key produced it on that message; evaluated on "
         "real certificates with mithril-stm AggregateSignature::verify (C01's subject) and the Ed25519 verifier",
-        "any key set, honest ones included, may sign forged certificates (collusion is not excluded)",
+        "any key set, honest ones included, may sign forged certificates (collusion is not excluded); one genuine "
+        "signer alone can sign under a twin of its set's key with a shrunken total stake (realised with a real aggregate)",
         "client path: cache entries only come from this verifier's own stores (cold, or warmed by real verifications "
         "served honestly); at most 2 adversarial attempts per session in MC, 4 in the random driver; the model bounds "
         "answers with a hash other than the one asked (MaxJumps) per attempt",
@@ -157,14 +174,22 @@ def run(tier, seed):
         raise vlib.ToolError("GEN (chain) produced too few cases")
     acc = [x for x in cases if x["impl"]]
     rest = [x for x in cases if not x["impl"]]
-    n_rest = 4000 if quick else 60000
-    sel = acc + _stratified(rest, lambda x: json.dumps([x["cls"], x["valid"], len(x["serve"]),
-                                                        x["certs"][0]["id"][:2], x["certs"][0]["hashOk"]]), n_rest, rnd)
+    n_rest = 3000 if quick else 50000
+    # twin cases are strata of their own: (which component of which composite field, why rejected)
+    def case_key(x):
+        return json.dumps([x["cls"], x["valid"], len(x["serve"]), x["certs"][0]["id"][:2], x["certs"][0]["hashOk"],
+                           _twin_kinds(x["certs"][:1 + len(x["serve"])])])
+    plain = [x for x in rest if not _twin_kinds(x["certs"])]
+    twins = [x for x in rest if _twin_kinds(x["certs"])]
+    sel = acc + _stratified(plain, case_key, n_rest, rnd) + _stratified(twins, case_key, n_rest // 2, rnd)
     st = c.cov["stages"]["MC:chain"]
     st.update({"cases_total": len(cases), "cases_selected": len(sel), "cases_predicted_accept": len(acc),
                "cases_predicted_accept_not_valid": len([x for x in acc if not x["valid"]]),
                "damaged_case_lines": bad,
-               "reject_classes": sorted({x["cls"][0] for x in rest})})
+               "reject_classes": sorted({x["cls"][0] for x in rest}),
+               "twin_cases_total": len([x for x in cases if _twin_kinds(x["certs"])]),
+               "twin_cases_selected": len([x for x in sel if _twin_kinds(x["certs"])]),
+               "twin_kinds_selected": sorted({k for x in sel for k in _twin_kinds(x["certs"])})})
     if not acc:
         raise vlib.ToolError("vacuity: no accepted walk generated")
     p_cases = os.path.join(c.work, "chain.cases.ndjson")
@@ -212,7 +237,8 @@ def run(tier, seed):
     c.cov["stages"]["MC:client-1-attempt"].update({"cases_total": len(s1), "damaged_case_lines": b1})
     c.cov["stages"]["MC:client-gen-2-attempts"].update({"cases_total": len(s2), "damaged_case_lines": b2})
     c.cov["client_sessions_selected"] = {"accepted_single": len(acc1), "rejected_single_with_retry": len(retry),
-                                         "two_attempts": len(s2sel)}
+                                         "two_attempts": len(s2sel),
+                                         "with_twins": len([x for x in sessions if _twin_kinds(x["certs"])])}
     if not acc1 or not s2sel:
         raise vlib.ToolError("vacuity: client GEN produced no accepted / no two-attempt session")
     p_sessions = os.path.join(c.work, "client.cases.ndjson")
@@ -266,6 +292,31 @@ def run(tier, seed):
     c.cov["rule"] = ("verify_certificate_chain / client verify_chain runs on real certificates realising TLC-generated "
                      "universes (accepted walks and walks rejected by exactly one clause) and seeded random universes; "
                      "distinct = distinct (projected universe, start, real walk)")
+    # twins of composite values, as the REAL certificates carry them (names recomputed from the real
+    # bytes by the projection): runs whose start or served certificates carry one
+    def involved(r):
+        idx = {r["start"]} | {w[1] for w in r["walk"] if w[1]}
+        return [r["certs"][i - 1] for i in idx if 0 < i <= len(r["certs"])]
+    tw = {}
+    for r in allr:
+        for k in _twin_kinds(involved(r)):
+            d = tw.setdefault(k, {"runs": 0, "accepted": 0, "by_path": {}})
+            d["runs"] += 1
+            d["accepted"] += 1 if r["accepted"] else 0
+            d["by_path"][r["path"]] = d["by_path"].get(r["path"], 0) + 1
+    c.cov["twin_runs"] = tw
+    # a certificate whose own key is a twin under which its multi-signature really verifies
+    # (genuine signature under a shrunken total stake, or the lone-signer forgery)
+    c.cov["runs_with_certificate_verifying_under_twin_key"] = len(
+        [r for r in allr if any("/" in x["avk"] and x["sigOk"] for x in involved(r))])
+    need = {"avk/s", "avk/n", "nextAvk/s", "nextAvk/n", "params/k", "params/m", "params/f", "params/g",
+            "nextParams/k", "nextParams/m", "nextParams/f", "nextParams/g"}
+    if need - set(tw):
+        c.defer(f"vacuity: no run on real certificates with twin {sorted(need - set(tw))}")
+    if c.cov["runs_with_certificate_verifying_under_twin_key"] == 0:
+        c.defer("vacuity: no certificate whose multi-signature verifies under a twin of the committed key")
+    if not any(d["by_path"].get("client") for d in tw.values()):
+        c.defer("vacuity: no twin on the client path")
     if c.cov["accepted_runs"] == 0:
         c.defer("vacuity: the real verifier accepted nothing")
     return c.finish()
